@@ -1151,7 +1151,7 @@ func (p *Parser) parseSpaceless(parser *Parser) (Node, error) {
 	}
 
 	// Expect endspaceless tag
-	if parser.tokenIndex >= len(parser.tokens) || parser.tokens[parser.tokenIndex].Type != TOKEN_BLOCK_START {
+	if parser.tokenIndex >= len(parser.tokens) || !isBlockStartToken(parser.tokens[parser.tokenIndex].Type) {
 		return nil, fmt.Errorf("expected endspaceless tag at line %d", spacelessLine)
 	}
 	parser.tokenIndex++
